@@ -4,6 +4,8 @@ import z3
 from .engine import cur, Unsupported, Inconclusive
 
 W = 64          # width of bit-vector backed integers
+_M = (1 << W) - 1
+_BVCONST = {}    # value -> z3 constant (ASTs are immutable; reuse them)
 
 __all__ = ["SymBool", "SymInt", "SymReal", "SymBytes", "SymByteArray",
            "evaluate", "is_sym", "const", "W", "ite", "smin", "smax",
@@ -152,15 +154,42 @@ def _runs(mask):
 class SymInt(object):
     """An integer whose value is a z3 term, either a mathematical Int or a
     64-bit two's complement bit-vector (for code that masks and shifts)."""
-    __slots__ = ("e",)
+    # k0 / k1: bits known to be 0 / 1 whatever the model (a cheap bitwise
+    # abstract domain for bit-vector backed values; both 0 = nothing known).
+    # It only short-cuts work the solver would otherwise do: loops such as
+    # `sum(1 for i in range(32) if xs & (1 << i))` over mostly-constant words.
+    __slots__ = ("e", "k0", "k1")
 
-    def __init__(self, e):
+    def __init__(self, e, k0=0, k1=0):
         self.e = e
+        self.k0 = k0
+        self.k1 = k1
 
     # -- helpers -------------------------------------------------------
     @property
     def is_bv(self):
         return z3.is_bv(self.e)
+
+    @staticmethod
+    def _known(o):
+        """(k0, k1) of an operand of a bit operation, or None."""
+        if isinstance(o, SymInt):
+            return (o.k0, o.k1)
+        if isinstance(o, bool):
+            o = int(o)
+        if isinstance(o, int):
+            return (~o & _M, o & _M)
+        return None
+
+    @staticmethod
+    def _from_known(k0, k1):
+        """A constant proxy when every bit is known, else None."""
+        if (k0 | k1) == _M:
+            e = _BVCONST.get(k1)
+            if e is None:
+                e = _BVCONST[k1] = z3.BitVecVal(k1, W)
+            return SymInt(e, k0, k1)
+        return None
 
     def _coerce(self, o):
         """Return (a, b, is_bv) with both operands in a common sort, or None
@@ -352,12 +381,29 @@ class SymInt(object):
         return a - self._int_and_const(a, ~m)
 
     def _bitop(self, o, op):
+        k0 = k1 = 0
+        if z3.is_bv(self.e):
+            # known-bits fast path (no z3 term is built when the result is
+            # a constant)
+            kb = self._known(o)
+            if kb is not None and (not isinstance(o, SymInt) or o.is_bv):
+                a0, a1, (b0, b1) = self.k0, self.k1, kb
+                if op == "and":
+                    k0, k1 = a0 | b0, a1 & b1
+                elif op == "or":
+                    k0, k1 = a0 & b0, a1 | b1
+                else:
+                    k0, k1 = (a0 & b0) | (a1 & b1), (a0 & b1) | (a1 & b0)
+                r = self._from_known(k0, k1)
+                if r is not None:
+                    return r
         c = self._coerce(o)
         if c is None:
             return NotImplemented
         a, b, isbv = c
         if isbv:
-            return SymInt({"and": a & b, "or": a | b, "xor": a ^ b}[op])
+            return SymInt({"and": a & b, "or": a | b, "xor": a ^ b}[op],
+                          k0, k1)
         # Int backing: one side must be a constant
         if z3.is_int_value(b):
             m = b.as_long()
@@ -388,7 +434,7 @@ class SymInt(object):
 
     def __invert__(s):
         if s.is_bv:
-            return SymInt(~s.e)
+            return s._from_known(s.k1, s.k0) or SymInt(~s.e, s.k1, s.k0)
         return SymInt(-s.e - 1)
 
     def _shift_amount(self, o):
@@ -418,9 +464,15 @@ class SymInt(object):
         if n < 0:
             raise ValueError("negative shift count")
         if s.is_bv:
+            k0 = ((s.k0 << n) | ((1 << n) - 1)) & _M
+            k1 = (s.k1 << n) & _M
+            top = _M & ~((1 << (W - 1 - n)) - 1) if n < W - 1 else _M
+            if s.k0 & top == top:
+                # no set bit can be shifted out: no overflow possible
+                return s._from_known(k0, k1) or SymInt(s.e << n, k0, k1)
             r = s.e << n
             _eng().side_condition((r >> n) == s.e, "64-bit overflow (<<)")
-            return SymInt(r)
+            return SymInt(r, k0, k1)
         return SymInt(s.e * (1 << n))
 
     def __rlshift__(s, o):
@@ -448,7 +500,12 @@ class SymInt(object):
         if n < 0:
             raise ValueError("negative shift count")
         if s.is_bv:
-            return SymInt(s.e >> n)       # arithmetic, as Python
+            sign = 1 << (W - 1)
+            fill = _M & ~((1 << max(W - n, 0)) - 1) if n > 0 else 0
+            k0 = (s.k0 >> n) | (fill if s.k0 & sign else 0)
+            k1 = (s.k1 >> n) | (fill if s.k1 & sign else 0)
+            return (s._from_known(k0, k1) or
+                    SymInt(s.e >> n, k0, k1))    # arithmetic, as Python
         return SymInt(s.e / (1 << n))     # floor for positive divisor
 
     def __rrshift__(s, o):
@@ -497,6 +554,10 @@ class SymInt(object):
         return s._cmp(o, lambda a, b: a >= b)
 
     def __bool__(s):
+        if s.k1:
+            return True
+        if s.k0 == _M:
+            return False
         return _eng().branch(s.e != 0)
 
     def __hash__(s):
@@ -530,8 +591,14 @@ class SymInt(object):
 
 
 def const(v, bv=True):
-    """A constant wrapped as a proxy (for the uniform-hash discipline)."""
-    return SymInt(z3.BitVecVal(v, W) if bv else z3.IntVal(v))
+    """A constant wrapped as a proxy (for the uniform-hash discipline); a
+    plain int in concrete mode."""
+    e = cur()
+    if e is not None and not e.symbolic:
+        return v
+    if bv:
+        return SymInt(z3.BitVecVal(v, W), ~v & _M, v & _M)
+    return SymInt(z3.IntVal(v))
 
 
 def ite(c, a, b):
@@ -907,6 +974,9 @@ def evaluate(obj, m):
     """Replace every proxy inside obj by its value under model m."""
     if isinstance(obj, (SymInt, SymBool, SymReal)):
         return _eval_expr(obj.e, m)
+    ev = getattr(obj, "_sx_evaluate", None)     # proxies of other modules
+    if ev is not None:                          # (sx.fp.SymFloat, WideInt)
+        return ev(m)
     if isinstance(obj, SymBytes):
         return bytes(b if isinstance(b, int) else _eval_expr(b, m)
                      for b in obj.items)
